@@ -17,9 +17,9 @@ from . import c12_model as M
 PID = 'C12'
 
 TIERS = {
-    'quick': {'files': 24, 'multiconf': 6, 'f3': 80, 'f5': 40, 'f6': 'all', 'f9': 40, 'opt_every': 3,
+    'quick': {'files': 24, 'multiconf': 6, 'f3': 80, 'f5': 40, 'f6': 'all', 'f9': 40, 'f10': 80, 'f11': 'all', 'opt_every': 3,
               'chunk': 160, 'max_min': 3},
-    'thorough': {'files': 64, 'multiconf': 14, 'f3': 'all', 'f5': 300, 'f6': 'all', 'f9': 400, 'opt_every': 1,
+    'thorough': {'files': 64, 'multiconf': 14, 'f3': 'all', 'f5': 300, 'f6': 'all', 'f9': 400, 'f10': 'all', 'f11': 'all', 'opt_every': 1,
                  'chunk': 400, 'max_min': 5, 'full': 260},
 }
 OPTION_SETS = ([], ['--protonate-all'], ['-k'])
@@ -471,7 +471,8 @@ def main(argv=None):
                          'whole residues lost and F7 only a window of consecutive whole residues surviving '
                          '(every pair of residue boundaries); F8 periodic loss of every p-th block of b records '
                          '(b in 1,2,4,8; p in 2,3,5; every phase); F9 independent loss of each record with rate '
-                         '0.02-0.9 (seeded sample). Thorough adds the complete regression structures '
+                         '0.02-0.9 (seeded sample); F10 two single records lost at most 12 records apart (all in '
+                         'thorough, sample in quick); F11 two whole residues lost (every pair). Thorough adds the complete regression structures '
                          'with sampled F1/F2/F3/F4/F6/F7. Cases are distinct by '
                          'sha256(faulted text, options, delivery); a case is trivial if every lost record is one '
                          'the reader ignores anyway (ignorable residue, hydrogen without -k) or nothing is lost.'),
